@@ -29,25 +29,27 @@ func (k ObjKind) String() string {
 }
 
 type Object struct {
-	ID     int
-	Kind   ObjKind
-	T      types.Type // allocation type (nil = untyped bytes)
-	Size   int64
-	B      []*Term         // bytes
-	P      map[int64]Value // pointer-word shadow: Ptr, UPtr, *FuncV
-	Frozen bool
-	Name   string
-	RT     types.Type  // KRType
-	Map    *MapData    // KHMap
-	Native interface{} // KNative
-	Err    *ErrData    // error objects created by stubs
-	Sym    *symNode    // symbolic type descriptor (C15)
+	ID       int
+	Kind     ObjKind
+	T        types.Type // allocation type (nil = untyped bytes)
+	Size     int64
+	B        []*Term         // bytes
+	P        map[int64]Value // pointer-word shadow: Ptr, UPtr, *FuncV
+	Frozen   bool
+	Name     string
+	RT       types.Type  // KRType
+	Map      *MapData    // KHMap
+	Native   interface{} // KNative
+	Err      *ErrData    // error objects created by stubs
+	Sym      *symNode    // symbolic type descriptor (C15)
 	Unseeded bool
 	Global   *ssa.Global // for KGlobal objects
-	Owned  bool        // C12: allocated by / handed to the operation under test
-	Tag    string      // provenance tag (input buffer, block buffer, bank...)
-	ptrOff map[int64]bool
-	ptrOK  bool
+	Owned    bool        // C12: allocated by / handed to the operation under test
+	Tag      string      // provenance tag (input buffer, block buffer, bank...)
+	ptrOff   map[int64]bool
+	ptrOK    bool
+	boolOff  map[int64]bool
+	boolOK   bool
 }
 
 type MapData struct {
